@@ -51,7 +51,9 @@ Record cfg := { has_shared : bool;      (* a shared cache (Redis) is configured 
                                            the cache, reads the persistent tier and fills the cache synchronously (no write-back goroutine) *)
                 fix_list : bool;        (* fixes/C14-list-rmw-key-lock.diff: AppendToList/RemoveFromList hold the key's lock around read-modify-write *)
                 fix_cwf : bool;         (* fixes/C14-failed-cache-write-invalidate.diff: a failing cache.Set after the persistent write invalidates *)
-                fix_cre : bool }.       (* fixes/C14-cache-read-error.diff: a cache read error on a cache-only key is an error, not "not found" *)
+                fix_cre : bool;         (* fixes/C14-cache-read-error.diff: a cache read error on a cache-only key is an error, not "not found" *)
+                exp_locked : bool }.    (* SetExpiration holds the key lock from its cache read to its cache write (the shipped code) /
+                                           reads the cache BEFORE taking the lock (variant kept for the `_refuted` witness) *)
 
 (* hybrid.go getCacheForKey: isShared(key) && sharedCache != nil *)
 Definition cache_for_key (T : tables) (c : cfg) (k : kbytes) : tier :=
@@ -78,7 +80,8 @@ Definition supd (s : store) (k : kbytes) (o : option value) : store := fun k' =>
 
 Inductive op :=
 | OSet (k : kbytes) (v : value) | OGet (k : kbytes) | ODel (k : kbytes) | OExists (k : kbytes)
-| OAppend (k : kbytes) (x : N) | ORemove (k : kbytes) (x : N) | OIncr (k : kbytes) | OSetNX (k : kbytes) (v : value).
+| OAppend (k : kbytes) (x : N) | ORemove (k : kbytes) (x : N) | OIncr (k : kbytes) | OSetNX (k : kbytes) (v : value)
+| OSetExp (k : kbytes).       (* SetExpiration: read the cached value, write it back with the new TTL (TTLs are not modelled) *)
 Inductive res := ROk | RErr | RNotFound | RVal (v : value) | RBool (b : bool) | RInt (n : N).
 
 Record world := {
@@ -131,7 +134,8 @@ Inductive pc :=
 | PGetRecheck (k : kbytes) (ct : tier)             (* repaired Get: lock held, cache re-check pending *)
 | PGetPersL (k : kbytes) (ct : tier)               (* repaired Get: lock held, persistent.Get pending *)
 | PGetFill (k : kbytes) (ct : tier) (v : value)    (* repaired Get: lock held, synchronous cache fill pending *)
-| PSetInval (k : kbytes) (ct : tier).              (* repaired Set: cache.Set failed after the persistent write, cache.Delete pending *)
+| PSetInval (k : kbytes) (ct : tier)               (* repaired Set: cache.Set failed after the persistent write, cache.Delete pending *)
+| PExpSet (k : kbytes) (ct : tier) (v : value).    (* SetExpiration: cached value read, cache.Set(value, ttl) pending *)
 
 Record caller := { me : nat; ops : list op; cur : option op; cpc : pc; faults : list bool; log : list res; held : bool }.
 Inductive thread := TCaller (c : caller) | TWb (j : nat) (landed : bool).
@@ -144,7 +148,7 @@ Definition pop_fault (cl : caller) : bool * caller :=
   | f :: fs => (f, {| me := me cl; ops := ops cl; cur := cur cl; cpc := cpc cl; faults := fs; log := log cl; held := held cl |})
   end.
 Definition op_key (o : op) : kbytes :=
-  match o with OSet k _ | OGet k | ODel k | OExists k | OAppend k _ | ORemove k _ | OIncr k | OSetNX k _ => k end.
+  match o with OSet k _ | OGet k | ODel k | OExists k | OAppend k _ | ORemove k _ | OIncr k | OSetNX k _ | OSetExp k => k end.
 Definition cur_key (cl : caller) : kbytes := match cur cl with Some o => op_key o | None => [] end.
 (* the current operation returns r (`defer mu.Unlock()` runs: the key lock is released if held) *)
 Definition finish (cl : caller) (w : world) (r : res) : caller * world :=
@@ -289,6 +293,17 @@ Section Step.
                    else finish cl (wr w ct k (Some v)) (RBool true)
          end.
 
+  (* hybrid_ops.go SetExpiration: value, err := cache.Get(key); if err != nil { return err }; return cache.Set(key, value, ttl) *)
+  Definition setexp_start (cl : caller) (w : world) (k : kbytes) (f : bool) : caller * world :=
+    let ct := if fix_incr c then cache_tier_for_key T c k else TLocal in
+    if f then finish cl (acc w ct k) RErr
+    else match tget w ct k with
+         | None => finish cl (acc w ct k) RNotFound
+         | Some v => if fix_wb c && negb (exp_locked c) && negb (held cl)
+                     then (set_pc cl (PWant (PExpSet k ct v)), acc w ct k)          (* read done WITHOUT the lock; now mu.Lock() *)
+                     else (set_pc cl (PExpSet k ct v), acc w ct k)
+         end.
+
   Definition op_start (cl : caller) (w : world) (o : op) (f : bool) : caller * world :=
     match o with
     | OSet k v => set_start cl w k v f
@@ -297,6 +312,7 @@ Section Step.
     | OExists k => exists_start cl w k f
     | OIncr k => incr_start cl w k f
     | OSetNX k v => setnx_start cl w k v f
+    | OSetExp k => setexp_start cl w k f
     end.
 
   (* operations that take the key lock before their first tier call *)
@@ -304,6 +320,7 @@ Section Step.
     match o with
     | OSet _ _ | ODel _ | OIncr _ | OSetNX _ _ => fix_wb c
     | OAppend _ _ | ORemove _ _ => fix_wb c && fix_list c
+    | OSetExp _ => fix_wb c && exp_locked c
     | OGet _ | OExists _ => false
     end.
 
@@ -344,6 +361,9 @@ Section Step.
     | PSetInval k ct =>
         let '(f, cl) := pop_fault cl0 in
         if f then finish cl (acc w ct k) RErr else finish cl (wr w ct k None) ROk
+    | PExpSet k ct v =>
+        let '(f, cl) := pop_fault cl0 in
+        if f then finish cl (acc w ct k) RErr else finish cl (wr w ct k (Some v)) ROk
     | PSetCache k v ct =>
         let '(f, cl) := pop_fault cl0 in
         if f then (if fix_cwf c then (set_pc cl (PSetInval k ct), acc w ct k) else finish cl (acc w ct k) ROk)
@@ -422,10 +442,14 @@ Definition spec_op (st : option value) (o : op) : option value * res :=
       | Some _ => (st, RErr)
       end
   | OSetNX _ v => match st with None => (Some v, RBool true) | Some _ => (st, RBool false) end
+  | OSetExp _ => (st, match st with Some _ => ROk | None => RNotFound end)    (* on a two-tier key a cold cache also answers RNotFound: see exp_res_ok *)
   end.
 
 Definition is_list_op (o : op) : bool := match o with OAppend _ _ | ORemove _ _ => true | _ => false end.
-Definition is_cache_only_op (o : op) : bool := match o with OIncr _ | OSetNX _ _ => true | _ => false end.
+Definition is_cache_only_op (o : op) : bool := match o with OIncr _ | OSetNX _ _ | OSetExp _ => true | _ => false end.
+(* SetExpiration only looks at the cache tier: its answer is nil when the register holds a value and the cache has it, "not found" otherwise;
+   it never changes the register *)
+Definition exp_res_ok (st : option value) (r : res) : Prop := r = RNotFound \/ (r = ROk /\ st <> None).
 
 (* ---- sequential execution: one caller, every operation runs to completion and its write-back lands before
    the next operation starts ---- *)
